@@ -681,7 +681,7 @@ func ModeUse(p *core.Prog, r *core.Report) {
 		})
 	}
 	r.Count("mode_reads", n)
-	r.Floor("mode_reads", 3)
+	r.Floor("mode_reads", 2)
 }
 
 // WARN-NEUTRAL — warnings alone never make a document invalid: no error is added under a condition that reads
@@ -823,7 +823,7 @@ func WarnNeutral(p *core.Prog, r *core.Report) {
 	sort.Strings(mw)
 	r.Info["may_warn_functions"] = mw
 	r.Count("warning_sensitive_error_sites", n)
-	r.Floor("warning_sensitive_error_sites", 5)
+	r.Floor("warning_sensitive_error_sites", 4)
 }
 
 // specScope: the functions that make up spec validation, found structurally instead of by file name: the methods
@@ -1042,7 +1042,7 @@ func RawAnalyzer(p *core.Prog, r *core.Report) {
 		})
 	}
 	r.Count("raw_analyzer_uses", n)
-	r.Floor("raw_analyzer_uses", 6)
+	r.Floor("raw_analyzer_uses", 4)
 }
 
 // noExpansionAt: block b only runs when the validator's expanded document is nil.
@@ -1727,7 +1727,7 @@ func ValueOptions(p *core.Prog, r *core.Report) {
 	}
 	r.Count("value_validator_options", nUses)
 	r.Count("walker_option_stores", nStores)
-	r.Floor("value_validator_options", 8)
+	r.Floor("value_validator_options", 6)
 	r.Floor("walker_option_stores", 2)
 }
 
